@@ -58,15 +58,43 @@ Lemma seq_state_snoc L o : seq_state (L ++ [o]) = fst (mem_step (seq_state L) o)
 Proof. unfold seq_state. rewrite run_app. cbn [fst]. rewrite run_cons. reflexivity. Qed.
 
 Record cinv (progs : list (list op)) (cf : mconf) : Prop := mkCI {
-  ci_perm : Permutation (c_log cf ++ flat_map remaining (c_threads cf)) (concat progs);
-  ci_cas : m_cas (c_store cf) = m_cas (seq_state (c_log cf));
-  ci_res : m_res (c_store cf) = m_res (seq_state (c_log cf));
+  ci_perm : Permutation (map snd (c_log cf) ++ flat_map remaining (c_threads cf)) (concat progs);
+  ci_order : forall i, log_of i (c_log cf) ++ match nth_error (c_threads cf) i with Some t => remaining t | None => [] end
+                       = nth i progs [];
+  ci_cas : m_cas (c_store cf) = m_cas (seq_state (map snd (c_log cf)));
+  ci_res : m_res (c_store cf) = m_res (seq_state (map snd (c_log cf)));
   ci_threads : Forall (thread_ok (c_store cf)) (c_threads cf);
   ci_graph : graph_inv (S_ix (m_cas (c_store cf)) (c_indexed cf)) (m_graph (c_store cf));
   ci_indexed : forall k, get gkey_eqb k (m_cas (c_store cf)) <> None ->
                          In k (c_indexed cf) \/
                          exists t d, In t (c_threads cf) /\ t_pc t = MPush3 d /\ gk d = k;
   ci_ix_sub : forall k, In k (c_indexed cf) -> get gkey_eqb k (m_cas (c_store cf)) <> None }.
+
+Lemma map_snd_pair (i : nat) (lg : list op) : map snd (map (pair i) lg) = lg.
+Proof. induction lg; simpl; congruence. Qed.
+
+Lemma log_of_app j L1 L2 : log_of j (L1 ++ L2) = log_of j L1 ++ log_of j L2.
+Proof. unfold log_of. now rewrite filter_app, map_app. Qed.
+
+Lemma log_of_pair_same i (lg : list op) : log_of i (map (pair i) lg) = lg.
+Proof. unfold log_of. induction lg; simpl; auto. rewrite Nat.eqb_refl. simpl. congruence. Qed.
+
+Lemma log_of_pair_other i j (lg : list op) : j <> i -> log_of j (map (pair i) lg) = [].
+Proof.
+  intro H. unfold log_of. induction lg; simpl; auto.
+  destruct (Nat.eqb i j) eqn:E; [apply Nat.eqb_eq in E; congruence | exact IHlg].
+Qed.
+
+Lemma nth_error_mid {A} (l1 l2 : list A) t : nth_error (l1 ++ t :: l2) (length l1) = Some t.
+Proof. induction l1; simpl; auto. Qed.
+
+Lemma nth_error_mid_other {A} (l1 l2 : list A) t t' j :
+  j <> length l1 -> nth_error (l1 ++ t :: l2) j = nth_error (l1 ++ t' :: l2) j.
+Proof.
+  revert j. induction l1 as [|x l1 IH]; intros j H; simpl in *.
+  - destruct j; [congruence | reflexivity].
+  - destruct j; [reflexivity|]. apply IH. intro; subst. congruence.
+Qed.
 
 Lemma flat_map_remaining_init progs :
   flat_map remaining (map (fun p => mkT MIdle p) progs) = concat progs.
@@ -76,6 +104,10 @@ Lemma cinv_init progs : cinv progs (mconf_init progs).
 Proof.
   constructor; simpl.
   - rewrite flat_map_remaining_init. apply Permutation_refl.
+  - intro i. unfold log_of. simpl. rewrite nth_error_map.
+    destruct (nth_error progs i) as [p|] eqn:E; simpl.
+    + unfold remaining. simpl. symmetry. now apply nth_error_nth.
+    + symmetry. apply nth_overflow. now apply nth_error_None.
   - reflexivity.
   - reflexivity.
   - apply Forall_forall. intros t Ht. apply in_map_iff in Ht as (p & <- & _). exact I.
@@ -207,20 +239,31 @@ Proof.
   apply nth_error_split in En as (l1 & l2 & Hth & Hlen). subst i.
   destruct cf as [s ths L J]. cbn [c_store c_threads c_log c_indexed] in *. subst ths.
   rewrite upd_nth_split.
-  destruct Hinv as [Hperm Hcas Hres Hthr Hg Hix Hsub]. cbn [c_store c_threads c_log c_indexed] in *.
+  destruct Hinv as [Hperm Hord Hcas Hres Hthr Hg Hix Hsub]. cbn [c_store c_threads c_log c_indexed] in *.
   assert (Hokt : thread_ok s t).
   { rewrite Forall_forall in Hthr. apply Hthr. apply in_or_app. right. now left. }
   assert (Hothers : forall x, In x l1 \/ In x l2 -> thread_ok s x).
   { intros x Hx. rewrite Forall_forall in Hthr. apply Hthr. apply in_or_app. destruct Hx; [now left|right; now right]. }
   (* permutation and the sequential replay of the log *)
-  assert (Hperm' : Permutation ((L ++ lg) ++ flat_map remaining (l1 ++ t' :: l2)) (concat progs)).
-  { rewrite flat_map_remaining_split. rewrite flat_map_remaining_split in Hperm.
+  assert (Hord' : forall i, log_of i (L ++ map (pair (length l1)) lg) ++
+                             match nth_error (l1 ++ t' :: l2) i with Some t0 => remaining t0 | None => [] end
+                             = nth i progs []).
+  { intro j. rewrite log_of_app. destruct (Nat.eq_dec j (length l1)) as [->|Hne].
+    - rewrite log_of_pair_same, nth_error_mid. specialize (Hord (length l1)).
+      rewrite nth_error_mid, (step_remaining _ _ _ _ _ _ Es) in Hord. now rewrite <- app_assoc.
+    - rewrite (log_of_pair_other _ _ _ Hne), app_nil_r.
+      rewrite <- (nth_error_mid_other l1 l2 t t' j Hne). apply Hord. }
+  assert (Hperm' : Permutation (map snd (L ++ map (pair (length l1)) lg) ++ flat_map remaining (l1 ++ t' :: l2)) (concat progs)).
+  { rewrite map_app, map_snd_pair.
+    rewrite flat_map_remaining_split. rewrite flat_map_remaining_split in Hperm.
     rewrite (step_remaining _ _ _ _ _ _ Es) in Hperm.
     eapply Permutation_trans; [apply Permutation_sym, perm_move | exact Hperm]. }
-  assert (Hseq : m_cas s' = m_cas (seq_state (L ++ lg)) /\ m_res s' = m_res (seq_state (L ++ lg))).
-  { destruct (step_commit _ _ _ _ _ _ Hokt Es) as [(-> & A & B)|(o & -> & A & B)].
+  assert (Hseq : m_cas s' = m_cas (seq_state (map snd (L ++ map (pair (length l1)) lg))) /\
+                 m_res s' = m_res (seq_state (map snd (L ++ map (pair (length l1)) lg)))).
+  { rewrite map_app, map_snd_pair.
+    destruct (step_commit _ _ _ _ _ _ Hokt Es) as [(-> & A & B)|(o & -> & A & B)].
     - rewrite app_nil_r. split; congruence.
-    - rewrite seq_state_snoc. destruct (mem_step_cas_res s (seq_state L) o Hcas Hres) as [C D].
+    - rewrite seq_state_snoc. destruct (mem_step_cas_res s (seq_state (map snd L)) o Hcas Hres) as [C D].
       split; congruence. }
   destruct Hseq as [Hcas' Hres'].
   destruct (step_kind _ _ _ _ _ _ Hokt Es) as
@@ -319,44 +362,44 @@ Qed.
 (* Every interleaving of the atomic steps, run to quiescence, ends in the content map,
    the resolver and (as answers of Predecessors) the graph of a sequential execution of
    the same operations. *)
+Lemma quiescent_thread_remaining ths i :
+  forallb thread_done ths = true ->
+  match nth_error ths i with Some t => remaining t | None => [] end = [].
+Proof.
+  intro H. destruct (nth_error ths i) as [t|] eqn:E; auto.
+  rewrite forallb_forall in H. apply nth_error_In in E. apply H in E.
+  now apply thread_done_spec in E as [_ ->].
+Qed.
+
 Theorem quiescent_serialisable_memory (progs : list (list op)) (sched : list nat) :
   let cf := mconf_run (mconf_init progs) sched in
   quiescent cf = true ->
-  exists order : list op,
-    Permutation order (concat progs) /\
-    let q := fst (run mem_step mem_init order) in
+  exists order : list (nat * op),
+    Permutation (map snd order) (concat progs) /\
+    (forall i, log_of i order = nth i progs []) /\
+    let q := fst (run mem_step mem_init (map snd order)) in
     m_cas (c_store cf) = m_cas q /\ m_res (c_store cf) = m_res q /\
     forall n k, In k (map gk (g_predecessors n (m_graph (c_store cf)))) <->
                 In k (map gk (g_predecessors n (m_graph q))).
 Proof.
   intros cf Hq. pose proof (cinv_run progs sched _ (cinv_init progs)) as Hinv. fold cf in Hinv.
-  destruct Hinv as [Hperm Hcas Hres Hthr Hg Hix Hsub]. unfold quiescent in Hq.
-  exists (c_log cf). split.
+  destruct Hinv as [Hperm Hord Hcas Hres Hthr Hg Hix Hsub]. unfold quiescent in Hq.
+  exists (c_log cf). split; [|split].
   - rewrite (quiescent_remaining _ Hq), app_nil_r in Hperm. exact Hperm.
-  - cbn zeta. fold (seq_state (c_log cf)). repeat split; auto.
-    + (* both graphs satisfy the invariant for the same content map *)
-      assert (Hg1 : graph_inv (S_mem (m_cas (c_store cf))) (m_graph (c_store cf))).
-      { eapply graph_inv_ext; [|exact Hg]. intro k0. unfold S_ix.
-        destruct (mem gkey_eqb k0 (c_indexed cf)) eqn:Em; auto.
-        unfold S_mem. destruct (get gkey_eqb k0 (m_cas (c_store cf))) eqn:E; auto. exfalso.
-        assert (Hne : get gkey_eqb k0 (m_cas (c_store cf)) <> None) by congruence.
-        destruct (Hix k0 Hne) as [H|(tw & dw & Hin & Hpc & _)].
-        - apply (mem_In gkey_eqb gkey_eqb_spec) in H. congruence.
-        - rewrite forallb_forall in Hq. apply Hq in Hin. apply thread_done_spec in Hin as [Hin _]. congruence. }
-      destruct (run_refines_mem (c_log cf) mem_init mem_inv_init) as (_ & _ & [_ Hg2]).
-      fold (seq_state (c_log cf)) in Hg2. rewrite <- Hcas in Hg2.
-      rewrite (g_predecessors_spec _ _ _ _ Hg1). now rewrite (g_predecessors_spec _ _ _ _ Hg2).
-    + intro H. destruct (run_refines_mem (c_log cf) mem_init mem_inv_init) as (_ & _ & [_ Hg2]).
-      fold (seq_state (c_log cf)) in Hg2. rewrite <- Hcas in Hg2.
-      assert (Hg1 : graph_inv (S_mem (m_cas (c_store cf))) (m_graph (c_store cf))).
-      { eapply graph_inv_ext; [|exact Hg]. intro k0. unfold S_ix.
-        destruct (mem gkey_eqb k0 (c_indexed cf)) eqn:Em; auto.
-        unfold S_mem. destruct (get gkey_eqb k0 (m_cas (c_store cf))) eqn:E; auto. exfalso.
-        assert (Hne : get gkey_eqb k0 (m_cas (c_store cf)) <> None) by congruence.
-        destruct (Hix k0 Hne) as [H0|(tw & dw & Hin & Hpc & _)].
-        - apply (mem_In gkey_eqb gkey_eqb_spec) in H0. congruence.
-        - rewrite forallb_forall in Hq. apply Hq in Hin. apply thread_done_spec in Hin as [Hin _]. congruence. }
-      rewrite (g_predecessors_spec _ _ _ _ Hg1). now rewrite (g_predecessors_spec _ _ _ _ Hg2) in H.
+  - intro i. specialize (Hord i). rewrite (quiescent_thread_remaining _ i Hq), app_nil_r in Hord. exact Hord.
+  - cbn zeta. fold (seq_state (map snd (c_log cf))).
+    assert (Hg1 : graph_inv (S_mem (m_cas (c_store cf))) (m_graph (c_store cf))).
+    { eapply graph_inv_ext; [|exact Hg]. intro k0. unfold S_ix.
+      destruct (mem gkey_eqb k0 (c_indexed cf)) eqn:Em; auto.
+      unfold S_mem. destruct (get gkey_eqb k0 (m_cas (c_store cf))) eqn:E; auto. exfalso.
+      assert (Hne : get gkey_eqb k0 (m_cas (c_store cf)) <> None) by congruence.
+      destruct (Hix k0 Hne) as [H|(tw & dw & Hin & Hpc & _)].
+      - apply (mem_In gkey_eqb gkey_eqb_spec) in H. congruence.
+      - rewrite forallb_forall in Hq. apply Hq in Hin. apply thread_done_spec in Hin as [Hin _]. congruence. }
+    destruct (run_refines_mem (map snd (c_log cf)) mem_init mem_inv_init) as (_ & _ & [_ Hg2]).
+    fold (seq_state (map snd (c_log cf))) in Hg2. rewrite <- Hcas in Hg2.
+    split; [exact Hcas|]. split; [exact Hres|]. intros n k.
+    rewrite (g_predecessors_spec _ _ _ _ Hg1). rewrite (g_predecessors_spec _ _ _ _ Hg2). tauto.
 Qed.
 
 (* non-vacuity: two goroutines racing on the same manifest and its layer, one schedule *)
